@@ -728,42 +728,45 @@ func refreshRing(r *ringDescriber) error {
 
 	prevHosts := r.session.ring.currentHosts()
 
+	// the reported hosts the host filter accepts, by host id (of a host id reported twice the first
+	// row counts: e.g. a stale system.peers row next to the current one)
+	reported := make(map[string]*HostInfo, len(hosts))
 	for _, h := range hosts {
 		if r.session.cfg.filterHost(h) {
 			continue
 		}
-
-		if host, ok := r.session.ring.addHostIfMissing(h); !ok {
-			r.session.startPoolFill(h)
-		} else {
-			// host (by hostID) already exists; determine if IP has changed
-			newHostID := h.HostID()
-			existing, ok := prevHosts[newHostID]
-			if !ok {
-				// the same host id was reported twice (e.g. a stale system.peers row next to the
-				// current one): the first row has been processed, the others are ignored instead of
-				// aborting the refresh half way
-				continue
-			}
-			if h.connectAddress.Equal(existing.connectAddress) && h.nodeToNodeAddress().Equal(existing.nodeToNodeAddress()) {
-				// no host IP change
-				host.update(h)
-			} else {
-				// host IP has changed
-				// remove old HostInfo (w/old IP)
-				r.session.removeHost(existing)
-				if _, alreadyExists := r.session.ring.addHostIfMissing(h); alreadyExists {
-					return fmt.Errorf("add new host=%s after removal: %w", h, ErrHostAlreadyExists)
-				}
-				// add new HostInfo (same hostID, new IP)
-				r.session.startPoolFill(h)
-			}
+		if _, ok := reported[h.HostID()]; !ok {
+			reported[h.HostID()] = h
 		}
-		delete(prevHosts, h.HostID())
 	}
 
-	for _, host := range prevHosts {
-		r.session.removeHost(host)
+	// What is gone is removed before anything is added: the hosts that are no longer reported and
+	// the old HostInfo (w/old IP) of the hosts whose IP has changed. The host selection policies key
+	// their host lists by connect address: a host added while the previous owner of its address is
+	// still listed (a node replaced by one with a new host id on the same address, nodes that swap
+	// addresses) is refused by the policy, and removing the previous owner afterwards removes the
+	// only entry of that address.
+	for hostID, existing := range prevHosts {
+		h, ok := reported[hostID]
+		if ok && h.connectAddress.Equal(existing.connectAddress) && h.nodeToNodeAddress().Equal(existing.nodeToNodeAddress()) {
+			// still reported, no host IP change
+			continue
+		}
+		r.session.removeHost(existing)
+	}
+
+	for _, h := range hosts {
+		if r.session.cfg.filterHost(h) || reported[h.HostID()] != h {
+			continue
+		}
+
+		if host, ok := r.session.ring.addHostIfMissing(h); !ok {
+			// new host, or new HostInfo (same hostID, new IP) of a host whose IP has changed
+			r.session.startPoolFill(h)
+		} else {
+			// host (by hostID) already exists, no host IP change
+			host.update(h)
+		}
 	}
 
 	r.session.metadata.setPartitioner(partitioner)
